@@ -110,11 +110,18 @@ def numpy_jacobian(f, x):
             break
     W = onp.zeros((m, n))
     if affine:
+        # exact differences along every coordinate with two different irrational steps: a map that is only LOCALLY affine
+        # (max, sort, clip, ... at a generic point) is unmasked when the two disagree, and goes to the stencil instead
+        W2 = onp.zeros((m, n))
         for i in range(n):
             d = onp.zeros(n)
             d[i] = 0.6180339887498949
             W[:, i] = (g(xr + d) - base) / 0.6180339887498949
-        return W, y0, True
+            d[i] = -0.2718281828459045
+            W2[:, i] = (g(xr + d) - base) / -0.2718281828459045
+        if onp.all(onp.isfinite(W)) and onp.max(onp.abs(W - W2) / onp.maximum(1.0, onp.abs(W)), initial=0) < 1e-9:
+            return W, y0, True
+        W = onp.zeros((m, n))
 
     def stencil(h):
         J = onp.zeros((m, n))
